@@ -295,18 +295,21 @@ func checkC10(tier string) *Report {
 			pre := w.StateKey(st)
 			// (1) authority + valid body succeeds (in at least the state where the body is applicable: all four by construction)
 			if validBody != nil {
+				// Unpause* of an element that is not paused (state S0) is redundant: the properties leave open whether
+				// it fails or succeeds as a no-op, so neither outcome is judged there.
+				redundant := sn == "S0(prior burn)" && strings.HasPrefix(ri.Method, "Unpause")
 				b := Branch(st)
 				res := w.Msg(b, setSigner(validBody, ri, w.Authority))
 				rep.Count("evaluations", 1)
 				if !res.OK || res.Panic != "" {
 					// UnpauseCrossChains(CCTP,[0]) / Unpause* are only valid where the element is paused: skip S0
-					if !(sn == "S0(prior burn)" && strings.HasPrefix(ri.Method, "Unpause")) {
+					if !redundant {
 						rep.Violate(Violation{Kind: "authority-refused", Group: ri.Method, Sig: label + "|" + sn, Replay: mustJSON(map[string]any{"rpc": label, "state": sn}),
 							What: fmt.Sprintf("authority with a valid body was refused by %s in %s: %s %s", label, sn, res.Err, res.Panic)})
 					}
 				} else {
 					rep.Outcome("authority-succeeded")
-					if w.StateKey(b) == pre && ri.Method != "ReplaceDepositForBurn" {
+					if w.StateKey(b) == pre && ri.Method != "ReplaceDepositForBurn" && !redundant {
 						rep.Violate(Violation{Kind: "authority-no-effect", Group: ri.Method, Sig: label + "|" + sn, Replay: mustJSON(map[string]any{"rpc": label}), What: "authority's valid " + label + " succeeded without changing state"})
 					}
 				}
